@@ -28,12 +28,16 @@ class Config:
     unwind: int = 1
     fam: int = 0
     tree: int = 0              # run through parse_tree::parse with the grammar's selector (C12)
-    mi: int = 0                # control = must_if< errs, ctl >::control (C05, oracle-only part)
+    mi: int = 0                # control = must_if< errs, ctl >::control (C05)
+    cov: int = 0               # run through coverage< Root, Action, Control >() (state_control<> around the logging control; C08)
 
     def cpp(self, g: Grammar) -> str:
         ctl = f"{g.ns}::ctl" if self.unwind else f"{g.ns}::ctl_nu"
         if self.mi:
             ctl = f"{g.ns}::ctl_mi"
+        if self.cov:
+            return (f"vh::run_case_cov< {g.ns}::tag, {g.nodes[self.root].cpp}, {g.ns}::act{self.fam}, {ctl}, "
+                    f"tao::pegtl::tracking_mode::{'lazy' if self.lazy else 'eager'}, {EOLS[self.eol]} >")
         if self.tree:
             return (f"vh::run_case_tree< {g.ns}::tag, {g.nodes[self.root].cpp}, {g.ns}::sel, {g.ns}::act{self.fam}, {ctl}, "
                     f"tao::pegtl::tracking_mode::{'lazy' if self.lazy else 'eager'}, {EOLS[self.eol]} >")
